@@ -119,6 +119,9 @@ func (f *Frame) enterLoop(st *State, b *ssa.BasicBlock, li *loopInfo) *State {
 		if strings.HasPrefix(hn, "Mv_") && strings.HasPrefix(h.heaps[hn].S, "lp.") {
 			vc.mapWF(h, hn)
 		}
+		if strings.HasPrefix(h.heaps[hn].S, "lp.") {
+			vc.storedRefsAllocated(hn, h.heaps[hn], ntop)
+		}
 	}
 	// 3. assume invariants
 	if li.auto != nil {
